@@ -242,6 +242,37 @@ def check_limits_and_range(ctx):
                                             f'{list(wg[:8])}', {}))
         elif float(((numpy.asarray(o.value[3]) - ld) ** 2).sum()) > 2e-4 * max(1.0, float((ld ** 2).sum())):
             ctx.violate(core.make_violation({'check': 'user-kernel-fit', 'kernel': 'angstrom'}, 'fit with the user kernel in angstrom does not reproduce an exact combination of its isotherms', {}))
+    # a kernel file that fails to load (a broken cell in the middle of the table), then the REPAIRED file at the same path
+    fe = os.path.join(d2, 'kernel_repaired.csv')
+    sel2 = list(raw.columns[::4])
+    broken = raw[sel2].astype(object)
+    broken.iloc[5, len(sel2) // 2] = 'ERR'
+    broken.to_csv(fe)
+    psd_kernel._LOADED.clear()
+    first = core.call(psd_dft_kernel_fit, p, load, fe, 0, timeout=900)
+    raw[sel2].to_csv(fe)
+    Kf = kernel_matrix(p, fe)
+    wsel = 0.01 * numpy.exp(-((numpy.arange(len(sel2)) - 0.7 * len(sel2)) / 2.5) ** 2)
+    ld = (Kf * wsel[:, None]).sum(axis=0)
+    second = core.call(psd_dft_kernel_fit, p, ld, fe, 0, timeout=900)
+    ev += 1
+    nt += 1
+    if first.ok:
+        raise core.HarnessError('the broken kernel file loaded without error: the sequence tests nothing')
+    if not second.ok or len(second.value[0]) != len(sel2) or float(((numpy.asarray(second.value[3]) - ld) ** 2).sum()) > 1e-3 * max(1.0, float((ld ** 2).sum())):
+        ctx.violate(core.make_violation({'check': 'kernel-load-failure-leaves-state'},
+                                        f'after a kernel file failed to load ({first.brief()[:80]}) and was repaired at the same path, the fit uses '
+                                        f'{len(second.value[0]) if second.ok else second.brief()[:100]} pore widths (the file has {len(sel2)}) / does not reproduce a combination of its isotherms', {}))
+    # limits that leave fewer than three points at either end of the isotherm are refused (never silently widened)
+    for lim, inside in (((p[-2] * 0.999, None), 2), ((p[-1] * 1.5, None), 0), ((None, p[1] * 1.001), 2), ((None, p[0] * 0.5), 0), ((p[-1] * 0.9999, None), 1)):
+        o = core.call(pgc.psd_dft, iso(load), p_limits=lim, bspline_order=0, timeout=900)
+        ev += 1
+        nt += 1
+        if o.ok or o.kind != 'CalculationError':
+            used = (o.value['limits'], len(o.value['kernel_loading'])) if o.ok else None
+            ctx.violate(core.make_violation({'check': 'limits-too-few-points-not-refused', 'end': 'upper' if lim[0] else 'lower'},
+                                            f'psd_dft(p_limits={lim}) leaves {inside} point(s) inside the limits but {"returned a fit on indices %s (%d points)" % used if o.ok else o.brief()[:120]} '
+                                            f'instead of CalculationError', {'limits': lim}))
     # kernel_units given once must not become the defaults of later calls (and the caller's dict stays as it was)
     fd = os.path.join(d2, 'kernel_cm3stp.csv')
     (raw * 22.414).to_csv(fd)
